@@ -420,3 +420,257 @@ def split_crates(prefix: str, cases: list, per_crate: int):
         for i in range(0, len(lst), per_crate):
             out.append(("%s%s_%02d" % (prefix, tag, i // per_crate), ns, lst[i:i + per_crate]))
     return out
+
+
+# ---------------------------------------------------------------------------------------
+# group `cfg` (C10): the configuration sweep
+
+MODELESS = ["Debug", "Display", "IntoStr", "Into", "into", "MAX", "MIN", "next", "next_back", "try_from",
+            "TryFrom", "names", "range"]
+ATOMS = [(f, None) for f in MODELESS] + \
+        [(f, m) for f in ("as_str", "from_str", "FromStr") for m in STR_MODES] + \
+        [("iter", m) for m in ITER_MODES]
+# documented in the iter section (src/lib.rs) although no such mode exists
+DOC_ONLY_ATOMS = [("iter", "match")]
+
+
+def cfg_shapes():
+    rng = random.Random(1010)
+    specs = [
+        ("gapless_small", "u8", [0, 1, 2, 3], "asc", "first"),
+        ("gapless_large", "i32", list(range(-5, 15)), "perm", "pool"),
+        ("holes_small", "u8", [0, 1, 5], "perm", "none"),
+        ("holes_large", "i16", [-300, -299, -298, -1, 0, 1, 2, 50, 51, 1000, 1001, 32767], "perm", "dups"),
+        ("holes_negative_runs", "i8", [-10, -5, -4, 3, 4], "desc", "first"),
+        ("holes_at_type_min", "i8", [-128, -127, 0, 127], "perm", "none"),
+    ]
+    out = []
+    for name, r, vs, order, renames in specs:
+        seq = shapes.order_values(sorted(vs), order, rng)
+        out.append(shapes.build_decl(r, seq, "cfg_" + name, "dec", renames, rng))
+    return out
+
+
+def config_from_atoms(atoms, decl, explicit_auto=False):
+    """-> Config or None when the atom set is contradictory / not allowed by the documentation"""
+    feats = {}
+    for f, m in atoms:
+        if f in feats:
+            return None
+        p = {}
+        if m is not None and (m != "auto" or explicit_auto):
+            p["mode"] = m
+        feats[f] = p
+    if "range" in feats and "iter" not in feats:
+        feats["iter"] = {}
+    cfg = Config(feats)
+    if legal(cfg, decl) is not None:
+        return None
+    return cfg
+
+
+def decorate(cfg: Config, rng: random.Random, decl):
+    """random documented parameters: name, vis, struct_name; random split over attributes"""
+    nested = False
+    for f in list(cfg.feats):
+        p = dict(cfg.feats[f])
+        if f in CUSTOM_NAMES and rng.random() < 0.35:
+            p["name"] = CUSTOM_NAMES[f]
+        if f in FN_FEATURES + ITER_FEATURES and rng.random() < 0.35:
+            p["vis"] = rng.choice(["", "pub(crate)", "pub"])
+            if p["vis"] == "":
+                nested = True
+        if f in ("iter", "names") and rng.random() < 0.4:
+            p["struct_name"] = "My" + ("Iter" if f == "iter" else "Names")
+        cfg.feats[f] = p
+    ntok = len(cfg.feature_tokens())
+    if ntok >= 2 and rng.random() < 0.5:
+        a = rng.randint(1, ntok - 1)
+        cfg.split = [a] if rng.random() < 0.5 else [1, a]
+    return nested
+
+
+def cfg_corpus(tier: str, seed: int):
+    rng = random.Random(1000 + seed)
+    ids = IdGen(1)
+    cases = []
+    decls = cfg_shapes()
+
+    def add(decl, cfg, part, decorate_p=0.0, **tags):
+        t = {"part": part}
+        t.update(tags)
+        if decorate_p and rng.random() < decorate_p:
+            if decorate(cfg, rng, decl):
+                t["nested"] = True
+        cases.append(Case(ids.next(), decl, cfg, "plain", t))
+        return cases[-1]
+
+    for di, d in enumerate(decls):
+        # singles (each atom alone: a missing dependency only shows when nothing else enables the helper)
+        for ai, atom in enumerate(ATOMS + DOC_ONLY_ATOMS):
+            cfg = config_from_atoms([atom], d, explicit_auto=(ai + di) % 2 == 0)
+            if cfg is not None:
+                add(d, cfg, "single", atoms=[atom])
+        # pairs
+        pairs = list(itertools.combinations(ATOMS, 2))
+        if tier == "quick":
+            pairs = rng.sample(pairs, 90)
+        for a, b in pairs:
+            cfg = config_from_atoms([a, b], d)
+            if cfg is not None:
+                add(d, cfg, "pair", decorate_p=0.25, atoms=[a, b])
+        # triples
+        triples = list(itertools.combinations(ATOMS, 3))
+        for t in rng.sample(triples, 20 if tier == "quick" else 600):
+            cfg = config_from_atoms(list(t), d)
+            if cfg is not None:
+                add(d, cfg, "triple", decorate_p=0.3, atoms=list(t))
+        # all-but-one
+        gap = d.gapless()
+        tuples = mode_tuples(gap, with_range=True)
+        for fi, f in enumerate(ALL_FEATURES):
+            t = tuples[(fi * 7 + di) % len(tuples)]
+            without = [f] + (["range"] if f == "iter" else [])
+            add(d, legalize(cfg_all(t, without=without), d), "all_but_one", decorate_p=0.3)
+        # random subsets with parameters
+        for _ in range(15 if tier == "quick" else 150):
+            add(d, random_config(d, rng), "random", decorate_p=0.6)
+        # split versus joined: the same configuration in one attribute and spread over several
+        for k in range(4 if tier == "quick" else 16):
+            t = tuples[rng.randrange(len(tuples))]
+            joined = legalize(cfg_all(t), d)
+            grp = "split:%d:%d" % (di, k)
+            add(d, joined, "split", split_group=grp)
+            ntok = len(joined.feature_tokens())
+            for variant in range(2):
+                sp = legalize(cfg_all(t), d)
+                if variant == 0:
+                    sp.split = [1] * (ntok - 1)
+                else:
+                    a = rng.randint(1, ntok - 2)
+                    sp.split = [a, rng.randint(1, ntok - a - 1)]
+                add(d, sp, "split", split_group=grp)
+    per = 60 if tier == "quick" else 150
+    return split_crates("cfg", cases, per)
+
+
+# ---------------------------------------------------------------------------------------
+# group `dom` (C11): the documented declaration domain
+
+def dom_corpus(tier: str, seed: int):
+    from .spec import make_decl, repr_domain
+    rng = random.Random(1100 + seed)
+    ids = IdGen(1)
+    cases = []
+    reprs = list(REPR_ORDER)
+    if tier == "quick":
+        k = seed % len(reprs)
+        reprs = (reprs[k:] + reprs[:k])[:6]
+        for must in ("i8", "i64", "u128"):
+            if must not in reprs:
+                reprs.append(must)
+
+    def add(d, tags, cheap=False, modes_i=0):
+        gap = d.gapless()
+        if cheap:
+            cfg = Config({f: {} for f in ("try_from", "TryFrom", "next", "next_back", "MIN", "MAX", "into", "Into")})
+        else:
+            tuples = mode_tuples(gap, with_range=True)
+            cfg = legalize(cfg_all(tuples[(modes_i * 7 + len(cases)) % len(tuples)]), d)
+        t = {"part": "dom"}
+        t.update(tags)
+        cases.append(Case(ids.next(), d, cfg, "plain", t))
+
+    for ri, r in enumerate(reprs):
+        bits, signed = REPRS[r]
+        lo, hi = repr_domain(r)
+        rlo, rhi = repr_range(r)
+        # 1. spelling catalogue, all forms in one enum
+        items = [("A", "0x10", None), ("B", "0o21", None), ("C", "0b10010", None), ("D", "1_9", None),
+                 ("E", "20%s" % r, None), ("F", "0x15_%s" % r, None), ("G", "2_2_", None), ("H", "0x0017", None),
+                 ("I", "0b0001_1000", None), ("J", "0o31%s" % r, None), ("K", "0X1A".lower(), None),
+                 ("L", "0x1B", "renamed L"), ("M", "00028", None)]
+        if signed:
+            items += [("N", "-5", None), ("O", "- 6", None), ("P", "-0x7", None), ("Q", "-8%s" % r, None),
+                      ("R", "-0b1001", None), ("S", "-0o12", None), ("T", "-1_1", None), ("U", "- 0xC", None),
+                      ("V", "-0", None) if False else ("V", "-13_%s" % r, None)]
+        rng.shuffle(items)
+        add(make_decl(r, items, shape="dom_spellings"), {"feat": ["nondecimal", "suffix"] + (["negative"] if signed else [])}, modes_i=ri)
+        # 2. implicit discriminants after explicit ones: start / middle / end
+        for name, its in [
+            ("implicit_start", [("A", None, None), ("B", None, None), ("C", "10", None), ("D", None, None)]),
+            ("implicit_middle", [("A", "7", None), ("B", None, None), ("C", None, "c"), ("D", "3", None), ("E", None, None)]),
+            ("implicit_end", [("A", "100", None), ("B", "50", None), ("C", None, None), ("D", None, None)]),
+            ("implicit_hex", [("A", "0x7e" if bits == 8 and signed else "0xfe" if bits == 8 else "0x7ffe", None), ("B", None, None)]),
+            ("implicit_all", [(ident_c, None, None) for ident_c in "ABCDEFG"]),
+            ("implicit_after_last_low", [("A", "9", None), ("B", "1", None), ("C", None, None), ("D", "5", None), ("E", None, None), ("F", None, None)]),
+        ]:
+            add(make_decl(r, its, shape="dom_" + name), {"feat": ["implicit_after_explicit"]}, modes_i=ri)
+        if signed:
+            add(make_decl(r, [("A", "-2", None), ("B", None, None), ("C", None, None), ("D", None, None), ("E", None, "e")],
+                          shape="dom_implicit_cross_zero"), {"feat": ["implicit_after_explicit", "negative"]}, modes_i=ri)
+            add(make_decl(r, [("A", "5", None), ("B", str(rlo), None), ("C", None, None), ("D", None, None)],
+                          shape="dom_implicit_from_type_min") if rlo >= -(1 << 63) else
+                make_decl(r, [("A", "5", None), ("B", str(-(1 << 63)), None), ("C", None, None), ("D", None, None)],
+                          shape="dom_implicit_from_i64_min"),
+                {"feat": ["implicit_after_explicit", "limit"]}, modes_i=ri)
+        # implicit reaching the upper limit of the domain
+        add(make_decl(r, [("A", str(hi - 2), None), ("B", None, None), ("C", None, None), ("Z", "0", None)],
+                      shape="dom_implicit_to_max"), {"feat": ["implicit_after_explicit", "limit"]}, modes_i=ri)
+        # 3. limits as explicit literals
+        lim = [("A", str(lo), None), ("B", str(hi), None), ("C", "0" if lo != 0 else "1", None)]
+        add(make_decl(r, lim, shape="dom_limits"), {"feat": ["limit"]}, modes_i=ri)
+        add(make_decl(r, [("A", str(hi), None), ("B", str(lo), "lo")], shape="dom_limits_desc"), {"feat": ["limit"]}, modes_i=ri)
+        if bits > 64 and signed:
+            # i64::MIN inside a wider type: any spelling is lint-free
+            add(make_decl(r, [("A", "-0x8000_0000_0000_0000", None), ("B", "-9_223_372_036_854_775_807", None),
+                              ("C", "0x7FFF_FFFF_FFFF_FFFF", None), ("D", "-9223372036854775808i128".replace("-9223372036854775808", "0"), None)],
+                          shape="dom_i64_limits_wide"), {"feat": ["limit", "nondecimal"]}, modes_i=ri)
+        if bits >= 64:
+            add(make_decl(r, [("A", "0x7FFF_FFFF_FFFF_FFFF", None), ("B", "0x7FFF_FFFF_FFFF_FFFE", None), ("C", "1", None)],
+                          shape="dom_i64_max_hex"), {"feat": ["limit", "nondecimal"]}, modes_i=ri)
+        # 4. foreign attributes and doc comments
+        fa = [
+            ("A", None, None, ["/// doc comment", "#[doc = \"attr doc\"]"]),
+            ("B", "5", "b", ["#[allow(dead_code)]", "#[cfg_attr(all(), allow(unused))]"]),
+            ("C", None, None, ["#[deprecated]", "#[cfg(any())] Removed = 77,", "#[cfg(all())]"]),
+            ("D", "2", None, ["#[default]", "/** block doc */"]),
+            ("E", None, None, ["#[cfg_attr(any(), enum_tools(rename = \"never\"))]"]),
+        ]
+        d = make_decl(r, fa, shape="dom_foreign_attrs",
+                      enum_attrs=["/// documented enum", "#[allow(dead_code, deprecated)]", "#[non_exhaustive]",
+                                  "#[derive(Default, PartialEq, Eq, Hash, PartialOrd, Ord, Debug)]" if False else "#[derive(Default, PartialEq, Eq, Hash)]",
+                                  "#[cfg_attr(all(), doc = \"cfg_attr doc\")]", "#[must_use]"])
+        add(d, {"feat": ["foreign_attrs", "implicit_after_explicit"]}, modes_i=ri)
+        # 5. sizes
+        if bits > 8:
+            for n in (255, 256, 257):
+                base = -120 if signed else 3
+                vs = list(range(base, base + n))
+                add(shapes.build_decl(r, vs, "dom_n%d" % n, "implicit", "first", rng), {"feat": ["size"]}, modes_i=ri)
+        else:
+            vs = list(range(rlo, rhi + 1))
+            add(shapes.build_decl(r, vs, "dom_whole_type", "implicit", "first", rng), {"feat": ["size", "limit"]}, modes_i=ri)
+        # 6. random in-domain declarations with mixed spellings
+        for _ in range(3 if tier == "quick" else 12):
+            d = shapes.random_decl(r, rng, max_n=16)
+            add(d, {"feat": ["random"]}, modes_i=ri)
+    # sizes beyond the small ones
+    big = [(1000, "u16")] if tier == "quick" else [(1000, "u16"), (4000, "i32")]
+    for n, r in big:
+        vs = list(range(0, n // 2)) + list(range(n // 2 + 10, n + 10))
+        add(shapes.build_decl(r, vs, "dom_n%d" % n, "implicit", "none", rng), {"feat": ["size"]}, modes_i=1)
+    limit_cases = []
+    if tier != "quick":
+        n = 65534
+        vs = list(range(0, 30000)) + list(range(30001, 30001 + n - 30000))
+        d = shapes.build_decl("u16" if False else "u32", vs, "dom_limit_65534", "implicit", "none", rng)
+        c = Case(ids.next(), d, Config({f: {} for f in ("try_from", "TryFrom", "next", "next_back", "MIN", "MAX", "into", "Into")}),
+                 "plain", {"part": "dom", "feat": ["size", "limit_65534"]})
+        limit_cases.append(c)
+        d = shapes.build_decl("u16", list(range(1, n + 1)), "dom_limit_65534_u16", "implicit", "none", rng)
+        c = Case(ids.next(), d, Config({f: {} for f in ("iter", "range", "next", "try_from", "MIN", "MAX", "into")}),
+                 "plain", {"part": "dom", "feat": ["size", "limit_65534", "limit"]})
+        limit_cases.append(c)
+    per = 40 if tier == "quick" else 100
+    return split_crates("dom", cases, per) + split_crates("domlimit", limit_cases, 1)
